@@ -202,6 +202,8 @@ func runRandom(o *vrt.Obs, p params) {
 				cand = op{K: opUnread, M: r.Intn(3)}
 			case w < 92:
 				cand = op{K: opRead, M: r.Intn(3)}
+			case w < 95:
+				cand = op{K: opInboundBad, M: r.Intn(3), L: vrt.Pick(r, lens), T: fmt.Sprint(r.Intn(3))}
 			default:
 				cand = op{K: opRestart}
 			}
